@@ -35,3 +35,52 @@ REG.add(Contract(F_PF, '_Check_Call.required_arg_len', params=[('self', T.Obj('_
     ensures=lambda v, old, res: [res == required(v.self)], post_names=['r-is-not-a-parameter-of-a-form'], carries=['post'], props=['C06', 'C16']))
 REG.add(Contract(F_PF, '_Check_Call.args_valid', params=[('self', T.Obj('_Check_Call')), ('args', T.List(T.Real))], result=T.Bool,
     ensures=lambda v, old, res: [res == valid(v.self, z3.Length(v.args))], post_names=['exact-arity-or-varargs'], carries=['post'], props=['C06', 'C16']))
+
+_PFE = 'Potential_Form_Exception'
+REG.add(Contract(F_PF, '_Check_Call.how_used', params=[('self', T.Obj('_Check_Call')), ('args', T.List(T.Real))], result=T.Text, trusted=True,
+    note='text of an error message (the arguments as they were written)', props=['C06', 'C16']))
+REG.add(Contract(F_PF, '_Check_Call.recommended_usage', params=[('self', T.Obj('_Check_Call'))], result=T.Text, trusted=True,
+    note='text of an error message (expected usage)', props=['C06', 'C16']))
+REG.add(Contract(F_PF, '_Check_Call.__call__', params=[('self', T.Obj('_Check_Call')), ('args', T.List(T.Real))],
+    ensures=lambda v, old, res: [valid(v.self, z3.Length(v.args))], post_names=['returns-only-for-a-valid-argument-count'],
+    raises_when=lambda v, old, exc: [z3.BoolVal(exc.cls == _PFE), z3.Not(valid(v.self, z3.Length(v.args)))], on_raise=lambda v, old: [z3.Not(valid(v.self, z3.Length(v.args)))], raises_classes=[_PFE],
+    carries=['post', 'raises'], props=['C06', 'C16']))
+
+# ---------------------------------------------------------------- as.NAME(r, p...) inside a formula: the registered Python callable with those arguments
+F_PY = 'atsim/potentials/config/_python_potential_function.py'
+REG.add_class(ClassDecl(F_PY, '_Python_Potential_Function', {'_check_call': T.Obj('_Check_Call'), '_pyfunc': T.Obj('PyFunc')}))
+pp_check = field('_Python_Potential_Function', '_check_call', CC); pp_func = field('_Python_Potential_Function', '_pyfunc', ObjSort('PyFunc'))
+REG.add(Contract(F_PY, '_Python_Potential_Function.__call__', params=[('self', T.Obj('_Python_Potential_Function')), ('args', T.List(T.Real))], result=T.Real,
+    ensures=lambda v, old, res: [res == pycall(pp_func(v.self), v.args), valid(pp_check(v.self), z3.Length(v.args))],
+    post_names=['the-wrapped-function-with-the-same-arguments-in-order', 'only-for-a-valid-argument-count'],
+    raises_when=lambda v, old, exc: [z3.BoolVal(exc.cls == _PFE), z3.Not(valid(pp_check(v.self), z3.Length(v.args)))], on_raise=lambda v, old: [], raises_classes=[_PFE],
+    carries=['post', 'raises'], props=['C06', 'C16']))
+
+# ---------------------------------------------------------------- _FunctionFactory.__call__: f(params...) is the function with the parameters bound after r
+from pyvc.values import Tup, PyDict, Rec, Obj as ObjV
+from pyvc.symexec import StarSeq
+F_FORMS = 'atsim/potentials/potentialforms.py'
+def _partial_ctor(ex, args, kw, st):
+    """functools.partial(func, *args, **keywords) (A4): the three attributes it sets"""
+    rest = args[1:]
+    return {'func': args[0], 'args': rest[0].seq if (len(rest) == 1 and isinstance(rest[0], StarSeq)) else Tup(rest), 'keywords': PyDict(kw)}
+REG.classes['_rpartial'].library_ctor = _partial_ctor
+REG.classes['PyFunc'].fields.update({'deriv': T.Opt(T.Obj('PyFunc')), 'deriv2': T.Opt(T.Obj('PyFunc'))}); REG.classes['PyFunc'].optional_attrs = {'deriv', 'deriv2'}
+REG.add_class(ClassDecl(F_FORMS, '_FunctionFactory', {'_func': T.Obj('PyFunc')}))
+PF_ = ObjSort('PyFunc'); ff_func = field('_FunctionFactory', '_func', PF_)
+pf_deriv = field('PyFunc', 'deriv', PF_); pf_no_deriv = field('PyFunc', 'deriv?none', BoolS); pf_deriv2 = field('PyFunc', 'deriv2', PF_); pf_no_deriv2 = field('PyFunc', 'deriv2?none', BoolS)
+def _ff_post(v, old, res):
+    """the result is the record built here: its func / args, and deriv / deriv2 partials exactly when the function offers them"""
+    ex, st = v._ex, v._st
+    w = ex.deref(v._frame['wrapper'], st); f = ff_func(v.self); out = []
+    def part(rec, fn):
+        r_ = ex.deref(rec, st)
+        return [ex.term_of(r_.fields['func'], st) == fn, ex.term_of(r_.fields['args'], st) == v.args]
+    out += part(v._frame['wrapper'], f)
+    for nm, none_, get_ in (('deriv', pf_no_deriv, pf_deriv), ('deriv2', pf_no_deriv2, pf_deriv2)):
+        if nm in w.fields: out += [z3.Not(none_(f))] + part(w.fields[nm], get_(f))
+        else: out += [none_(f)]
+    return out
+REG.add(Contract(F_FORMS, '_FunctionFactory.__call__', params=[('self', T.Obj('_FunctionFactory')), ('args', T.List(T.Real))],
+    ensures=_ff_post, post_names=None, carries=['post'], props=['C06'],
+    note='postcondition stated on the record under construction: wrapper = _rpartial(func, *args) and wrapper.deriv / .deriv2 = _rpartial(func.deriv / .deriv2, *args) exactly when func offers them'))
